@@ -18,8 +18,8 @@ def main(tier, seed):
     ns = names(tier)
     for n in ns:
         for pol in (("fifo", "lifo") if tier == "quick" else ("explore",)):
-            jobs.append(("props.flow", "run_scenario", (n, dict(policy=pol, k=0, oracles=("c04",), max_paths=200 if tier == "quick" else 4000,
-                                                                 answer_choice=(tier != "quick"), seed=seed), "C04")))
+            jobs.append(("props.flow", "run_scenario", (n, dict(policy=pol, k=0, oracles=("c04",), max_paths=(600 if "needs2" in n else 200) if tier == "quick" else 4000,
+                                                                 answer_choice=(tier != "quick" or "needs2" in n), seed=seed), "C04")))
     c.run_jobs(jobs)
     return c.finish(
         rule="one path = generated workflow (branch kinds if/else/needs in every declaration order, conditional steps and acts, nesting) x feasible valuation class of the "
